@@ -131,6 +131,11 @@ class PureEval:
 		return v
 
 	def p_Compare(self, node):
+		if len(node.ops) == 1 and isinstance(node.ops[0], (ast.Is, ast.IsNot)) and isinstance(node.left, ast.Name) and isinstance(node.comparators[0], ast.Name):
+			a, b = self.lookup(node.left.id), self.lookup(node.comparators[0].id)
+			if isinstance(a, Ref) and isinstance(b, Ref):
+				r = a.addr == b.addr        # object identity of two heap objects
+				return r if isinstance(node.ops[0], ast.Is) else (not r)
 		left = self.strip(self.ev(node.left))
 		out = []
 		for op, c in zip(node.ops, node.comparators):
